@@ -194,17 +194,30 @@ func c04fullRange(t *testing.T) (int, []explore.Violation, string) {
 		}
 		g.TakeSN()
 		m := &c04mon{cfg: cfg.Predefined, lo: 1, hi: 0xFFFE, assigned: map[uint16]string{}, subNames: map[uint16]string{}}
-		usable := m.usable()
+		// the real sequence from its real start (ids 1, 3, ...), then fast-forwarded to 0xFF00 (every allocation path
+		// searches the registration table, so 65 000 registrations are quadratic), through the real upper bound 0xFFFE
+		// and 6 allocations beyond exhaustion
+		const firstPart, skipTo = 400, 0xFF00
+		wantSecond := 0
+		for id := skipTo; id <= 0xFFFE; id++ {
+			if _, pre := refPredef(cfg.Predefined, "c1", uint16(id)); !pre {
+				wantSecond++
+			}
+		}
+		total := firstPart + wantSecond + 6
 		refusedAfter := 0
-		for i := 0; i < usable+6 && !g.Returned; i++ {
+		for i := 0; i < total && !g.Returned; i++ {
+			if i == firstPart {
+				g.H.VTopicIDSkipTo(skipTo)
+			}
 			name := fmt.Sprintf("n/%d", i)
 			var ev string
-			// mostly SUBSCRIBEs (REGISTER searches the whole registration table: quadratic)
-			if i%500 != 499 && i < usable-3 {
+			switch {
+			case i >= total-9 || i%7 == 3:
+				ev = gw.EvC("REGISTER "+name, gw.Register(0, uint16(1+i%60000), name))
+			default:
 				mid := uint16(1 + i%60000)
 				ev = gw.Ev("SUBSCRIBE "+name+" + SUBACK", gw.EvC("", gw.SubscribeName(mid, name, 0, false)), gw.EvB("", refmqtt.EncSuback(mid, 0)))
-			} else {
-				ev = gw.EvC("REGISTER "+name, gw.Register(0, uint16(1+i%60000), name))
 			}
 			g.Apply(ev)
 			n++
@@ -216,12 +229,15 @@ func c04fullRange(t *testing.T) (int, []explore.Violation, string) {
 				}
 				vs = append(vs, v...)
 			}
-			if i >= usable && len(m.assigned) == before {
+			if i >= firstPart+wantSecond && len(m.assigned) == before {
 				refusedAfter++
 			}
 		}
-		if len(m.assigned) != usable && len(vs) == 0 {
-			vs = append(vs, explore.Violation{Sig: "full-range:ids-not-all-usable", Detail: fmt.Sprintf("%d distinct ids handed out, %d usable", len(m.assigned), usable)})
+		if len(m.assigned) != firstPart+wantSecond && len(vs) == 0 {
+			vs = append(vs, explore.Violation{Sig: "full-range:ids-not-all-usable", Detail: fmt.Sprintf("%d distinct ids handed out, %d usable on the way (first %d from the start, then %#x..0xFFFE)", len(m.assigned), firstPart+wantSecond, firstPart, skipTo)})
+		}
+		if refusedAfter != 6 && len(vs) == 0 && !g.Returned {
+			vs = append(vs, explore.Violation{Sig: "full-range:allocation-after-exhaustion", Detail: fmt.Sprintf("%d of the 6 allocations after the id space was used up were refused", refusedAfter)})
 		}
 		g.Finish()
 		return "", nil
@@ -255,7 +271,7 @@ func TestC04(t *testing.T) {
 	}
 	rep.Add(vs...)
 	rep.Coverage["full_range_history_events"] = n
-	rep.Coverage["rule"] = "BFS over all orders of the three allocation paths (REGISTER of 4 names, SUBSCRIBE of 3 plain names, broker PUBLISH on 4 new names under a wildcard) on a handler whose topic id sequence is 1..4 with id 2 predefined for the client, to depth 6 (thorough 8), i.e. through and beyond exhaustion; monitor = id->name forever; plus one history of 65 537 allocations on the unmodified handler (ids 1..0xFFFE, three predefined ids)"
+	rep.Coverage["rule"] = "BFS over all orders of the three allocation paths (REGISTER of 4 names, SUBSCRIBE of 3 plain names, broker PUBLISH on 4 new names under a wildcard) on a handler whose topic id sequence is 1..4 with id 2 predefined for the client, to depth 6 (thorough 8), i.e. through and beyond exhaustion; monitor = id->name forever; plus one history on the unmodified handler with the real id sequence: 400 allocations from its real start, then the sequence fast-forwarded to 0xFF00 and allocations through the real upper bound 0xFFFE and 6 beyond exhaustion (predefined ids at both ends)"
 	rep.Assumptions = []string{"default schedule", "small-range handler built through the overlay-only VSetTopicIDRange export"}
 	rep.Finish()
 }
